@@ -363,6 +363,12 @@ func TestC03(t *testing.T) {
 		if c.Thorough {
 			n = 40000
 		}
+		// names that coincide: parameters named like a built-in, like the function itself, like a sibling
+		// function or like a global; the activation's binding wins for reads, assignments, calls and captures,
+		// and the outer binding is untouched afterwards
+		c.Rapid("coinciding-names", n/4, func(rt *rapid.T, s *Sub) {
+			c.c03Program(s, "coinciding-names", genCoincidingNames(rt))
+		})
 		c.Rapid("rand-programs", n, func(rt *rapid.T, s *Sub) {
 			g := &c03Gen{budget: rapid.IntRange(4, 40).Draw(rt, "budget")}
 			g.pick = func(label string, n int) int { return rapid.IntRange(0, n-1).Draw(rt, label) }
